@@ -295,7 +295,7 @@ def sx(t):
     if k == '_':
         return '_'
     if k == 'a':
-        return '(a %s)' % q(t[1])
+        return '(c %s)' % q(t[1])
     if k == 'i':
         return '(i %d)' % t[1]
     if k == 'f':
@@ -307,6 +307,96 @@ def sx(t):
 
 def sx_list(ts):
     return '(' + ' '.join(sx(t) for t in ts) + ')'
+
+
+def sx_key(k):
+    return '_' if k is None else '%d' % k
+
+
+def sx_dict(d):
+    """dict {int|None: engine value} in insertion order."""
+    return '(' + ' '.join('(%s %s)' % (sx_key(k), sx(from_engine(v))) for k, v in d.items()) + ')'
+
+
+def sx_kk(d):
+    return '(' + ' '.join('(%s %s)' % (sx_key(k), sx_key(v)) for k, v in d.items()) + ')'
+
+
+def parse_sx(text):
+    """Parse one protocol line into nested lists of tokens (strings keep their quotes)."""
+    toks = []
+    i, n = 0, len(text)
+    while i < n:
+        c = text[i]
+        if c in '()':
+            toks.append(c)
+            i += 1
+        elif c.isspace():
+            i += 1
+        elif c == '"':
+            j = i + 1
+            buf = []
+            while text[j] != '"':
+                if text[j] == '\\':
+                    j += 1
+                    buf.append('\n' if text[j] == 'n' else text[j])
+                else:
+                    buf.append(text[j])
+                j += 1
+            toks.append(('str', ''.join(buf)))
+            i = j + 1
+        else:
+            j = i
+            while j < n and not text[j].isspace() and text[j] not in '()':
+                j += 1
+            toks.append(text[i:j])
+            i = j
+    pos = [0]
+
+    def item():
+        t = toks[pos[0]]
+        pos[0] += 1
+        if t == '(':
+            out = []
+            while toks[pos[0]] != ')':
+                out.append(item())
+            pos[0] += 1
+            return out
+        return t
+    out = []
+    while pos[0] < len(toks):
+        out.append(item())
+    return out
+
+
+def term_of_sx(e):
+    """Protocol term -> harness term."""
+    if e == '_':
+        return ('_',)
+    h = e[0]
+    if h == 'v':
+        return ('v', int(e[1]))
+    if h == 'i':
+        return ('i', int(e[1]))
+    if h == 'f':
+        return ('f', float(e[1][1]))
+    if h == 's':
+        txt = e[1][1]
+        return ('s', txt[1:-1] if len(txt) >= 2 and txt[0] == '"' and txt[-1] == '"' else txt)
+    if h == 'c':
+        if len(e) == 2:
+            return ('a', e[1][1])
+        return ('c', e[1][1], tuple(term_of_sx(a) for a in e[2:]))
+    raise ValueError('bad protocol term %r' % (e,))
+
+
+def norm(t):
+    """Harness term with floats by value (for exact comparison of model and implementation)."""
+    if t[0] == 'f':
+        return ('f', float(t[1]))
+    if t[0] == 'c':
+        return ('c', t[1], tuple(norm(a) for a in t[2]))
+    return t
 
 
 # ----------------------------------------------------------------------------- enumeration
